@@ -56,7 +56,11 @@ def run_job(job):
     res = dict(job=job, status="ok", stats={}, outcomes={}, violations=[], nonrepro=[], diff_mismatch=[],
                samples=[], frontier=[], error=None, functions=[], stubs=[], nontrivial=0, diffs=0)
     try:
+        import logging
+        import warnings
         import z3  # noqa: F401
+        logging.disable(logging.CRITICAL)
+        warnings.simplefilter("ignore")
         from . import loader, stubs
         from .core import Budget, Engine, Unsupported
         loader.start_coverage()
@@ -126,6 +130,10 @@ def run_job(job):
 
 # ------------------------------------------------------------------------------- coordinator side
 def check(pid, tier, seed, only=None, workers=None, verbose=False):
+    import logging
+    import warnings
+    logging.disable(logging.CRITICAL)
+    warnings.simplefilter("ignore")
     t0 = time.time()
     hm = harness_module(pid)
     known = load_known(pid)
